@@ -37,6 +37,14 @@ def gen(tier, rng, scale):
         pmaps = {}
         for l in range(nlib):
             # two libraries may share their file name (different directories and debug ids): they stay different libraries
+            if l and rng.chance(1, 4):
+                # the very same library registered once more (one shared object loaded by two processes; converters call add_lib per mapping):
+                # equal LibraryInfo, so the same library - whatever handle comes back must denote it
+                ops.append(list(next(o for o in ops if o[0] == "L")) if rng.chance(1, 2) else list([o for o in ops if o[0] == "L"][-1]))
+                dup_of = [o for o in ops if o[0] == "L"].index(ops[-1])
+                if dup_of in symtab:
+                    symtab[l] = symtab[dup_of]
+                continue
             ops.append(["L", "lib%d" % (l if not (l and rng.chance(1, 3)) else rng.below(l)), "v%d" % l])
             if rng.chance(1, 2):
                 syms = []
@@ -437,6 +445,7 @@ def _coq_case(ops, prof):
         return _S(_e(x) if isinstance(x, str) else x)
     procs, threads, libs, maps = [], [], [], {}
     lpaths = []          # the identity of a library in the content ids is its path (names may repeat)
+    canon = []
     samples, mstacks, visible, selected, counters = [], [], [], [], []
     mops, nschemas, gtypes, text_ty = [], 0, [], None
     mcats, layout_ty = [], [None]
@@ -591,6 +600,8 @@ def _coq_case(ops, prof):
         elif k == "L":
             libs.append(o[1])
             lpaths.append("/lib/%s/%s" % (o[2], o[1]) if len(o) > 2 else "/lib/%s" % o[1])
+            # add_lib of a LibraryInfo equal to an earlier one denotes that earlier library (the table is a set): the slot stands for the first equal one
+            canon.append(lpaths.index(lpaths[-1]))
         elif k == "Y":
             tab = []
             for x in o[2:]:
@@ -601,9 +612,9 @@ def _coq_case(ops, prof):
             for e in tab:
                 if not ded or ded[-1][0] != e[0]:
                     ded.append(e)
-            symtabs[o[1]] = ded
+            symtabs[canon[o[1]]] = ded
         elif k == "M":
-            maps.setdefault(o[1], []).append((o[2], o[3], o[4], o[5]))
+            maps.setdefault(o[1], []).append((canon[o[2]], o[3], o[4], o[5]))
         elif k == "T":
             threads.append([o[1], o[2], o[3], o[4], None])
         elif k == "N":
@@ -617,9 +628,9 @@ def _coq_case(ops, prof):
             umap.append(len(cops) - 1)
             uvals.append(qvals[o[1]] + (o[2],))
         elif k == "H":
-            nsh.append((o[1], o[2], o[3]))
-            ns_first.setdefault((o[1], o[2], o[3]), o[5])
-            reqs.append("(%d%%nat, FNs %d%%nat %d %d)" % (o[1], o[2], o[3], S(o[5])))
+            nsh.append((o[1], canon[o[2]], o[3]))
+            ns_first.setdefault((o[1], canon[o[2]], o[3]), o[5])
+            reqs.append("(%d%%nat, FNs %d%%nat %d %d)" % (o[1], canon[o[2]], o[3], S(o[5])))
         elif k in ("S", "S2"):
             samples.append((o[1], o[2], [expect(o[1], threads[o[1]][0], f) for f in o[4:]]))
             for f in o[4:]:
